@@ -22,9 +22,15 @@ RULE = ('A case is a generated audit trail on the in-memory ZooKeeper: 2-9 '
         '(cleanup_trace, cleanup_finished, cleanup_trace_history, '
         'cleanup_finished_history, cleanup_server_trace, '
         'cleanup_server_trace_history; real sqlite3/zlib) is run once '
-        'cleanly and then once per ZooKeeper write of that run with the '
-        'write raising (every write = one crash point), each crash followed '
-        'by a clean re-run on the crashed state. After every run: each '
+        'cleanly and then, for EVERY ZooKeeper write of that run, with that '
+        'write failing in each of these ways: the archiver process stops '
+        'there (harness-private exception); the request fails with '
+        'kazoo ConnectionLoss and is not applied, the process lives on and '
+        'the real code retries (zkutils.with_retry, real KazooRetry), '
+        'propagates or swallows; same with SessionExpiredError (at every '
+        'snapshot upload and every 4th other write). Every faulted run is '
+        'followed by a clean re-run on the resulting state. crash_points = '
+        'write x kind. After every run: each '
         'record that was live before is live, or returned by download_batch '
         '/ a row of a snapshot the harness opens itself; events of scheduled '
         'instances and records younger than the expiry are live; no pruner '
@@ -35,7 +41,13 @@ RULE = ('A case is a generated audit trail on the in-memory ZooKeeper: 2-9 '
         'event of an unscheduled one. distinct = canonical JSON.')
 ASSUMPTIONS = [
     'in-memory ZooKeeper (pbt/fakezk.py) stands in for the ensemble; a crash '
-    'of the archiver = the k-th mutating ZooKeeper call raising',
+    'of the archiver = the k-th mutating ZooKeeper call raising a '
+    'harness-private exception; a failed request = that call raising '
+    'kazoo.exceptions.ConnectionLoss / SessionExpiredError without being '
+    'applied (the applied-but-reply-lost flavour of ConnectionLoss is not '
+    'modelled)',
+    'kazoo.retry.KazooRetry is the real class, only its back-off sleep runs '
+    'on the virtual clock (fixed 100 ms per attempt)',
     'virtual clock replaces treadmill.trace.app.zk.time; node mtimes come '
     'from the same clock',
     'prune_trace_evictions / prune_trace_service_events (which delete live '
@@ -51,7 +63,7 @@ ASSUMPTIONS = [
     'when available, else under /tmp',
 ]
 TRUSTED = ['pbt/fakezk.py', 'pbt/vclock.py', 'pbt/archiver.py']
-BUDGET = {'quick': 240, 'thorough': 24000}
+BUDGET = {'quick': 800, 'thorough': 24000}
 
 SECOND = 1000000
 DAY = 24 * 3600 * SECOND
@@ -175,8 +187,8 @@ def execute(case, stats):
 
         # clean run
         world.reset()
-        crashed, writes = world.run()
-        assert not crashed
+        outcome, writes = world.run()
+        assert outcome == 'completed'
         oplog = list(world.oplog)
         summary = world.check('clean', True)
         uploads = {fam: 0 for fam in archiver.FAMILY_ORDER}
@@ -214,24 +226,34 @@ def execute(case, stats):
         if prunes:
             stats.count('cases_pruned')
 
-        # one crash per write of the clean run, then recovery
+        # every write of the clean run x every kind of failure there, each
+        # followed by a clean re-run (the restarted archiver)
+        salt = len(case['instances']) % 4
         for point in range(writes):
-            world.reset()
-            crashed, done = world.run(fault_at=point)
-            if not world.fired:
-                raise AssertionError(
-                    'crash point %d of %d not reached (%s, %d)' % (
-                        point, writes, crashed, done))
-            stats.count('crash_points')
-            stats.count('crash_at:%s' % _kind(world, oplog[point]))
-            if not crashed:
-                # the code under test swallowed the failure and went on
-                stats.count('faults_swallowed')
-            world.check('crash', False)
-            crashed, _done = world.run()
-            assert not crashed
-            stats.count('recovery_runs')
-            world.check('recovery', True)
+            where = _kind(world, oplog[point])
+            kinds = ['stop', 'connloss']
+            if oplog[point][0] == 'create' or point % 4 == salt:
+                kinds.append('expired')
+            for kind in kinds:
+                world.reset()
+                outcome, done = world.run(fault_at=point, kind=kind)
+                if not world.fired:
+                    raise AssertionError(
+                        'fault point %d of %d not reached (%s, %d)' % (
+                            point, writes, outcome, done))
+                if kind == 'stop' and outcome != 'stopped':
+                    raise AssertionError('the code under test handled the '
+                                         'harness-private stop exception')
+                stats.count('crash_points')
+                stats.count('crash_points:' + kind)
+                stats.count('fault_at:%s' % where)
+                if kind != 'stop':
+                    stats.count('zk_fault_outcome:%s:%s' % (kind, outcome))
+                world.check('crash' if kind == 'stop' else 'zkerror', False)
+                outcome, _done = world.run()
+                assert outcome == 'completed'
+                stats.count('recovery_runs')
+                world.check('recovery', True)
 
         nontrivial = (uploads['trace'] >= 1 and prof['old_scheduled'] >= 1
                       and prof['young_unscheduled'] >= 1)
